@@ -52,6 +52,13 @@ def degenerate_case(case):
         rx.append(st.Reaction(" -> %s" % labels[0], kf=0.5))
     if r.random() < 0.3:
         rx.append(st.Reaction("2 %s -> " % labels[0], kf=0.01))
+    if r.random() < 0.35:
+        # high orders on either side (the statement covers every valid script): the reverse direction of "A -> 4 B" is a
+        # fifth-... order channel even when its constant is zero
+        a, b = labels[0], labels[-1]
+        eq = r.choice(["%s -> 4 %s" % (a, b), "2 %s + 3 %s -> %s" % (a, b, a), "%s -> 3 %s + 2 %s" % (a, a, b), "5 %s -> 6 %s" % (a, b),
+                       "4 %s + 4 %s -> " % (a, b)])
+        rx.append(st.Reaction(eq, kf=r.choice([0.0, 1e-6]), kr=r.choice([0.0, 0.0, 1e-9])))
     net = st.RDNetwork(species, rx, environments=["e0", "e1"])
     if r.random() < 0.5:
         w, h, d = r.choice([(1, 1, 1), (2, 1, 1), (1, 2, 1), (1, 1, 2), (2, 2, 1), (3, 1, 1), (2, 2, 2), (1, 3, 2)])
@@ -80,6 +87,12 @@ def degenerate_case(case):
     script = st.RDScript(**kw)
     e = engines.get(kind_)
     e.setup(script)
+    if r.random() < 0.5:
+        # the caller goes on using ITS script object for something else: the running simulation must not notice
+        tiny = st.RDSystem(st.RDNetwork([st.Species("Z")], []), st.RDGridSpace(w=1, h=1, d=1), state=[1.0])
+        script.system = tiny
+        script.t_sample = [0.0]
+        script.sampling_policy = "on_iteration"
     for _ in range(r.randint(0, 3)):
         c = r.choice(["it", "n", "run", "sample", "out", "prog"])
         if c == "it":
@@ -104,6 +117,7 @@ def degenerate_case(case):
 
 WORKLOADS = [
     ("vf.checks.c11:degenerate_case", lambda sd, i: {"seed": sd, "idx": i}),
+    ("vf.checks.c01:run_case", lambda sd, i: {"seed": sd, "idx": i, "python": False}),       # orders up to 4 on both sides
     ("vf.checks.c09:run_case", lambda sd, i: {"seed": sd, "idx": i}),
     ("vf.checks.c14:run_case", lambda sd, i: {"seed": sd, "idx": i}),
     ("vf.checks.c02:run_case", lambda sd, i: {"seed": sd, "idx": i, "long": False}),
@@ -218,7 +232,7 @@ def main():
         run.inconclusive_because("instrumented build failed: %s" % str(e)[:300])
         return run.finish()
     rt = build.asan_runtime()
-    per = {"vf.checks.c11:degenerate_case": 4000 if thorough else 400, "vf.checks.c09:run_case": 2000 if thorough else 150,
+    per = {"vf.checks.c11:degenerate_case": 4000 if thorough else 400, "vf.checks.c09:run_case": 2000 if thorough else 150, "vf.checks.c01:run_case": 2000 if thorough else 200,
            "vf.checks.c14:run_case": 4000 if thorough else 300, "vf.checks.c02:run_case": 1000 if thorough else 60,
            "vf.checks.c07:run_case": 300 if thorough else 24}
     import random
